@@ -71,6 +71,10 @@ enum Op {
         target: String,
         data: Value,
     },
+    Rbad {
+        entry: u8,
+        target: String,
+    },
     Cmp(String),
     Tok(tok::Rule, String),
     EscHtml(u32, u32),
@@ -288,6 +292,17 @@ fn parse_op(toks: &[&str]) -> Result<Op, BadCase> {
                 target: p_str(args[1])?,
                 data: p_json(args[2])?,
                 failat,
+            }
+        }
+        "rbad" => {
+            need(args, 2)?;
+            let entry: u8 = p_num(args[0])?;
+            if entry > 7 {
+                return Err(BadCase);
+            }
+            Op::Rbad {
+                entry,
+                target: p_str(args[1])?,
             }
         }
         "cmp" => {
@@ -559,7 +574,16 @@ fn rthr_obs(reg: &Handlebars<'static>, threads: usize, iters: usize, target: &st
     format!("T:{}:{}", distinct.len(), first)
 }
 
-fn render_obs(reg: &Handlebars<'static>, entry: u8, target: &str, data: &Value, failat: i64) -> String {
+/// data whose `Serialize` implementation fails (op `rbad`)
+struct BadSer;
+
+impl serde::Serialize for BadSer {
+    fn serialize<S: serde::Serializer>(&self, _s: S) -> Result<S::Ok, S::Error> {
+        Err(serde::ser::Error::custom("unserializable"))
+    }
+}
+
+fn render_obs<T: serde::Serialize>(reg: &Handlebars<'static>, entry: u8, target: &str, data: &T, failat: i64) -> String {
     let st = Rc::new(RefCell::new(WState::default()));
     let w = FailWriter {
         st: st.clone(),
@@ -786,6 +810,7 @@ impl CaseState {
                 data,
                 failat,
             } => render_obs(self.reg()?, *entry, target, data, *failat),
+            Op::Rbad { entry, target } => render_obs(self.reg()?, *entry, target, &BadSer, -1),
             Op::Rthr {
                 threads,
                 iters,
